@@ -207,7 +207,7 @@ def run(ctx):
         summary[str(n)] = {"ids_seen": len(ids), "orbits_seen": len(orbs)}
         full = (n <= 5) or True   # n = 6 is stratified over all 760 orbits in every tier
         if full and not rep.truncated:
-            if orbs != members.orbit_reps(n):
+            if orbs != members.orbit_reps(n) and not any(str(f.get("key", "")).startswith(f"n={n}:raised") for f in rep.failures):
                 raise fw.HarnessError(f"generator did not reach every LC orbit for n={n}")
             if ids != list(range(KCOUNT[n])) and all(len(v) == 1 for v in by_orbit.values()):
                 rep.fail(f"n={n}:id-set", {"n": n, "ids_seen": ids[:20]},
